@@ -22,6 +22,8 @@ def run(c):
     r2_containment(c)
     r3(c)
     r4(c)
+    r5(c)
+    r6(c)
 
 
 def generator_classes(repo, include_examples=False):
@@ -546,3 +548,125 @@ def _callers_pass_get_prefix(repo, m, fn, pname):
                     return False
                 ok_any = True
     return ok_any
+
+
+def _scanned_fields(repo):
+    """{'ThenField': {...}, 'MatchField': {...}}: the fields whose list names get_used_community_lists collects (the lists CommunityListGenerator then defines)"""
+    m = repo.module(RPL + ".community")
+    out = {"ThenField": set(), "MatchField": set()}
+    if not isinstance(m.defs.get("get_used_community_lists"), ast.FunctionDef):
+        raise AnchorError("community.get_used_community_lists not found")
+    fn = repo.func(RPL + ".community", "get_used_community_lists")
+    for n in ast.walk(fn):
+        if isinstance(n, ast.For) and isinstance(n.iter, (ast.Tuple, ast.List)):
+            for e in n.iter.elts:
+                if isinstance(e, ast.Attribute) and isinstance(e.value, ast.Name) and e.value.id in out:
+                    out[e.value.id].add(e.attr)
+    return out
+
+
+def r5(c):
+    repo = c.repo
+    c.rule("C14.R5", "a list referred to by name is a list that gets defined: wherever a routing-policy renderer emits the *name* of a community list taken from a condition / "
+                     "action value (the loop variable over value / value.added / value.removed / value.replaced itself, not the members looked up through communities[name]), the "
+                     "field it is dispatched for (ThenField.X / MatchField.X) is one of the fields community.get_used_community_lists collects names from — otherwise the policy "
+                     "refers to a filter that CommunityListGenerator never renders")
+    sc = _scanned_fields(repo)
+    c.floor("C14.R5", "fields scanned by get_used_community_lists", len(sc["ThenField"]) + len(sc["MatchField"]), 6)
+    c.analysed["scanned_fields"] = {k: sorted(v) for k, v in sc.items()}
+    m = repo.module(RPL + ".policy")
+    cls = repo.cls(RPL + ".policy", "RoutingPolicyGenerator")
+    methods = {f.name: repo.func(RPL + ".policy", "RoutingPolicyGenerator." + f.name) for f in cls.body if isinstance(f, ast.FunctionDef)}
+    n_sites = 0
+    for disp in methods.values():
+        for node in walk_no_nested(disp):
+            if not (isinstance(node, ast.If) and isinstance(node.test, ast.Compare) and len(node.test.ops) == 1 and isinstance(node.test.ops[0], ast.Eq)):
+                continue
+            l, r = node.test.left, node.test.comparators[0]
+            if not (isinstance(l, ast.Attribute) and l.attr == "field" and isinstance(r, ast.Attribute) and isinstance(r.value, ast.Name) and r.value.id in sc):
+                continue
+            kind, field = r.value.id, r.attr
+            subject = norm(l.value)                      # `action` / `condition`
+            # the renderer(s) of this field: the arm itself and the self._x(...) methods it delegates to
+            scopes = [(disp, node.body, subject)]
+            for x in ast.walk(node):
+                if isinstance(x, ast.Call) and isinstance(x.func, ast.Attribute) and isinstance(x.func.value, ast.Name) and x.func.value.id == "self" and x.func.attr in methods \
+                        and any(x is y for st in node.body for y in ast.walk(st)):
+                    h = methods[x.func.attr]
+                    # which parameter of the helper receives the action / condition
+                    pn = [a.arg for a in h.args.args][1:]
+                    sub_h = None
+                    for i, a in enumerate(x.args):
+                        inner = a.args[1] if isinstance(a, ast.Call) and call_name(a) == "cast" and len(a.args) == 2 else a
+                        if norm(inner) == subject and i < len(pn):
+                            sub_h = pn[i]
+                    if sub_h:
+                        scopes.append((h, h.body, sub_h))
+            for fn_, body, subj in scopes:
+                pv = Provenance(fn_)
+                # the subject under another name: `x = cast(T, action)` / `x = action`
+                subjects = {subj}
+                for st_ in walk_no_nested(fn_):
+                    if isinstance(st_, ast.Assign) and len(st_.targets) == 1 and isinstance(st_.targets[0], ast.Name):
+                        v_ = st_.value
+                        v_ = v_.args[1] if isinstance(v_, ast.Call) and call_name(v_).split(".")[-1] == "cast" and len(v_.args) == 2 else v_
+                        if isinstance(v_, ast.Name) and v_.id in subjects:
+                            subjects.add(st_.targets[0].id)
+                for st in body:
+                    for y in ast.walk(st):
+                        if not (isinstance(y, ast.Yield) and y.value is not None):
+                            continue
+                        elts = y.value.elts if isinstance(y.value, ast.Tuple) else [y.value]
+                        for e in elts:
+                            e0 = e.value if isinstance(e, ast.Starred) else e
+                            if not isinstance(e0, ast.Name):
+                                continue
+                            names = set()
+                            for d_ in pv.rd.defs(e0):
+                                if d_.kind == "for" and d_.value is not None and not d_.index:
+                                    nb, _ = pv.iteration_bases(d_.value)
+                                    names |= nb | {norm(d_.value)}
+                            # community-list names live in <subject>.value (conditions) and <subject>.value.added / removed / replaced (actions); other value attributes
+                            # (as-path numbers, metrics) are not names of lists
+                            byname = [b for b in sorted(names) if any(b in (sj + ".value", sj + ".value.added", sj + ".value.removed", sj + ".value.replaced") for sj in subjects)]
+                            if not byname:
+                                continue
+                            n_sites += 1
+                            ok = field in sc[kind]
+                            c.check("C14.R5", ok, repo.loc(m, y), f"{fn_.name}/{kind}.{field}", f"`{norm(y)[:70]}` emits the list name `{e0.id}` (an element of {byname[0]}) for "
+                                    f"{kind}.{field}, but get_used_community_lists does not collect names from that field ({sorted(sc[kind])}): the policy refers to a list that is "
+                                    "never defined on the device", key_text=f"undefined-ref:{kind}.{field}")
+    c.floor("C14.R5", "by-name list references in the policy renderers", n_sites, 4)
+
+
+def r6(c):
+    repo = c.repo
+    c.rule("C14.R6", "one list, one name: entities.mangle_united_community_list_name is the plain join of its parts (`<sep>.join(values)`, nothing cut, hashed or re-cased "
+                     "afterwards) — the list generators of arista / cumulus name *every* list through it, also a single one, while the policy side refers to a single list by "
+                     "its own name; the two agree only as long as the name of a one-element union is that element")
+    mn = RPL + ".entities"
+    m = repo.module(mn)
+    fn = repo.func(mn, "mangle_united_community_list_name")
+    c.count("functions")
+    pv = Provenance(fn)
+    rets = [n for n in walk_no_nested(fn) if isinstance(n, ast.Return) and n.value is not None]
+    p0 = fn.args.args[0].arg if fn.args.args else None
+    bad = None
+    for r in rets:
+        v = pv.resolve_alias(r.value)
+        plain = isinstance(v, ast.Call) and isinstance(v.func, ast.Attribute) and v.func.attr == "join" and isinstance(v.func.value, ast.Constant) and len(v.args) == 1 \
+            and norm(pv.resolve_alias(v.args[0])) in (p0, f"list({p0})", f"tuple({p0})")
+        # a name with several reaching definitions (rebound under a condition) is not the plain join
+        if isinstance(r.value, ast.Name) and len(pv.rd.defs(r.value)) != 1:
+            plain = False
+        if not plain:
+            bad = r
+    c.check("C14.R6", bool(rets) and bad is None, repo.loc(m, bad or fn), "mangle_united_community_list_name/plain-join", f"`{norm(bad)[:70] if bad is not None else ''}` is not the plain join of the "
+            "given names: a single list whose name is altered here is defined under one name and referred to under another (`match community <full name>` against "
+            "`ip community-list <altered name>`)", key_text="mangled-name")
+    # and it is the only naming function the list generators use for the definition side
+    users = 0
+    for gm_, cls in generator_classes(repo):
+        for f in [x for x in cls.body if isinstance(x, ast.FunctionDef)]:
+            users += sum(1 for x in calls_in(f) if call_name(x).split(".")[-1] == "mangle_united_community_list_name")
+    c.floor("C14.R6", "uses of the shared naming function in the generators", users, 3)
